@@ -5,8 +5,70 @@ from .. import flow, tlc
 from ..common import workdir
 
 
-def run_queue_prop(prop, tier, mc_jobs, canaries, rule, trigger, text_assumptions, level='model_checking'):
+QC_CFG = """SPECIFICATION Spec
+CONSTANTS
+  NMsg = %(nmsg)d
+  NRcpt = %(nrcpt)d
+  IndexLog = %(indexlog)s
+  StoreYields = %(yields)s
+  Backoff <- %(backoff)s
+  MaxTime = %(maxtime)d
+  Flushes = %(flushes)d
+  Announces = %(ann)d
+  Loads = %(loads)d
+  KF_GlobalSort = %(kf1)s
+  KF_RequeueEarly = %(kf2)s
+  KF_EarlyRelease = %(kf3)s
+  KF_LateClaim = %(kf4)s
+  GetEarly = FALSE
+INVARIANT C03_NoViolation
+INVARIANT C01_StaysStored
+INVARIANT C03_GetExact
+INVARIANT C01_RemovedOnlySettled
+INVARIANT C13_FailedBounced
+INVARIANT C12_Known
+CHECK_DEADLOCK FALSE
+"""
+
+QC = {
+    'a': dict(nmsg=1, nrcpt=3, indexlog='TRUE', yields='FALSE', backoff='B00N', maxtime=1, flushes=0, ann=0, loads=0),
+    'a2': dict(nmsg=1, nrcpt=3, indexlog='FALSE', yields='TRUE', backoff='B00N', maxtime=1, flushes=0, ann=0, loads=0),
+    'b': dict(nmsg=1, nrcpt=2, indexlog='TRUE', yields='TRUE', backoff='B0N', maxtime=1, flushes=1, ann=1, loads=1),
+    'c0': dict(nmsg=2, nrcpt=2, indexlog='TRUE', yields='TRUE', backoff='B01N', maxtime=1, flushes=1, ann=0, loads=1),
+    'd23': dict(nmsg=1, nrcpt=1, indexlog='FALSE', yields='TRUE', backoff='B01N', maxtime=1, flushes=0, ann=1, loads=0),
+    'kf1': dict(nmsg=1, nrcpt=3, indexlog='TRUE', yields='FALSE', backoff='B00N', maxtime=1, flushes=0, ann=0, loads=0, kf1='TRUE'),
+    'kf2': dict(nmsg=1, nrcpt=2, indexlog='TRUE', yields='TRUE', backoff='B0N', maxtime=1, flushes=0, ann=0, loads=0, kf2='TRUE'),
+    'kf3': dict(nmsg=1, nrcpt=1, indexlog='FALSE', yields='TRUE', backoff='B0N', maxtime=1, flushes=0, ann=1, loads=1, kf3='TRUE'),
+    'kf4': dict(nmsg=1, nrcpt=1, indexlog='FALSE', yields='TRUE', backoff='B0N', maxtime=1, flushes=1, ann=1, loads=0, kf4='TRUE'),
+}
+QC_TEXT = {
+    'a': 'QueueCore 1 msg x 3 rcpt, index-log backend, 3 rounds of every per-recipient outcome',
+    'a2': 'QueueCore 1 msg x 3 rcpt, in-place backend with yielding storage calls',
+    'b': 'QueueCore 1 msg x 2 rcpt, yielding index-log backend, flush + announcement + load',
+    'c0': 'QueueCore 2 msgs x 2 rcpt, yielding index-log backend, flush + load, backoff 0/1',
+    'd23': 'QueueCore duplicate announcement while a dequeue is in flight (known finding D23: early retry) - TLC must find it',
+    'kf1': 'deviation KF_GlobalSort (D2 as found): TLC must find the wrong-recipient counterexample',
+    'kf2': 'deviation KF_RequeueEarly (D18 as found): TLC must find the re-send',
+    'kf3': 'deviation KF_EarlyRelease (D16 as found): TLC must find the second attempt',
+    'kf4': 'deviation KF_LateClaim (D22 as found): TLC must find the second attempt',
+}
+
+
+def qc_jobs(wd, names):
+    jobs = []
+    for n in names:
+        d = dict(kf1='FALSE', kf2='FALSE', kf3='FALSE', kf4='FALSE')
+        d.update(QC[n])
+        job = {'name': QC_TEXT[n], 'module': 'MC_QueueCore', 'cfg': flow.write_cfg(wd, 'qc_%s.cfg' % n, QC_CFG % d), 'timeout': 3000}
+        if n.startswith('kf') or n == 'd23':
+            job['expect_violation'] = ['C03_NoViolation', 'C01_StaysStored', 'C03_GetExact']
+        jobs.append(job)
+    return jobs
+
+
+def run_queue_prop(prop, tier, mc_names, canaries, rule, trigger, text_assumptions, level='model_checking'):
     wd = workdir(prop)
+    mc_jobs = qc_jobs(wd, mc_names)
     return flow.standard(
         prop, tier, mc_jobs, 'queue', 'Trace_Queue', 'Trace_Queue.cfg', canaries, level=level, rule=rule, trigger=trigger,
         assumptions=text_assumptions + [
